@@ -40,6 +40,13 @@ func (e *emuTNC) send(kind byte, from, to string, data []byte) {
 	e.toHost <- b
 }
 
+func (e *emuTNC) sendPort(port byte, kind byte, from, to string, data []byte) {
+	var f, t [10]byte
+	copy(f[:], from)
+	copy(t[:], to)
+	e.toHost <- append(refHeader(port, kind, 0xf0, f, t, uint32(len(data))), data...)
+}
+
 func (e *emuTNC) Read(p []byte) (int, error) {
 	// give the demultiplexer goroutines a chance to drain before the next frame
 	for i := 0; i < 6; i++ {
@@ -169,6 +176,7 @@ func H_c13_session() {
 	in1 := symBytes(symInt(1, 3))
 	emu.send('D', "N1CALL-1", "N0CALL", in1)
 	emu.send('D', "OTHER", "ELSE", []byte("not for us"))
+	emu.sendPort(port+1, 'D', "N1CALL-1", "N0CALL", []byte("same station, other port"))
 	in2 := symBytes(symInt(0, 2))
 	if len(in2) > 0 {
 		emu.send('D', "N1CALL-1", "N0CALL", in2)
